@@ -777,13 +777,12 @@ func etaExpandMethodValues(fset *token.FileSet, info *types.Info, f *ast.File, s
 			recv = pt.Elem()
 		}
 		named, ok := recv.(*types.Named)
-		if !ok || named.Obj().Exported() || named.TypeParams().Len() > 0 {
+		if !ok || named.TypeParams().Len() > 0 {
 			return true
 		}
-		if _, known := recTypes[named.Obj().Name()]; known {
-			return true
-		}
-		if _, known := recFuncs[named.Obj().Name()+"."+m.Name()]; known {
+		// a new unexported method - of a new type, or added to a recorded one (`s.Flags.Visit(s.setField)` for
+		// what used to be a literal) - but never a recorded method
+		if _, known := recFuncs[tname(named.Obj())+"."+m.Name()]; known {
 			return true
 		}
 		if _, renamed := oldFuncName[m.Origin()]; renamed {
